@@ -186,7 +186,7 @@ def run(prog: Program, res: Result) -> None:  # noqa: PLR0912, PLR0915
             r = root_name(tgt)
             if r is None:
                 continue
-            if kind == "mutate" and isinstance(stmt, ast.Call) and stmt.func.attr in ("extend", "pop", "update", "copy", "clear") and isinstance(tgt, ast.Name) and tgt.id in PER_RENDER_ROOTS:  # type: ignore[union-attr]
+            if kind == "mutate" and isinstance(stmt, ast.Call) and isinstance(stmt.func, ast.Attribute) and stmt.func.attr in ("extend", "pop", "update", "copy", "clear") and isinstance(tgt, ast.Name) and tgt.id in PER_RENDER_ROOTS:  # type: ignore[union-attr]
                 continue  # RenderContext.extend()/copy(): methods of the context, not container mutators
             if r in EXC_NAMES:
                 continue
@@ -399,6 +399,10 @@ def run(prog: Program, res: Result) -> None:  # noqa: PLR0912, PLR0915
     from checks.shared import check_cache_hit_rebinds
 
     check_cache_hit_rebinds(prog, res, "C10.R6")
+    res.rule("C10.R7", "a name is bound and looked up under the spelling the template uses: no Unicode normalisation or case folding of identifiers anywhere in liquid2 (assign/capture/for targets go through parse_identifier, lookups read the path token as written - normalising one side makes a local binding invisible and the caller's data of that name is read instead)")
+    from checks.shared import check_no_text_normalisation
+
+    check_no_text_normalisation(prog, res, "C10.R7")
 
 
 def _param_or_empty_default(e: ast.AST, param: str) -> bool:
